@@ -25,14 +25,14 @@ theorem genLoopR_null (mask : Nat) (fixed : Bool) :
     | ok x =>
       obtain ⟨seg, l, rest⟩ := x
       simp only []
-      cases he : (insertSliced mask fixed pLeft 0 0 seg).err with
+      cases he : (insertSliced mask fixed pLeft (segStart ll) 0 seg).err with
       | some e => rfl
       | none =>
         simp only []
-        have hn : nextLastDu false lastDu (insertSliced mask fixed pLeft 0 0 seg).lastDu
-            = (insertSliced mask fixed pLeft 0 0 seg).lastDu := rfl
+        have hn : nextLastDu false lastDu (insertSliced mask fixed pLeft (segStart ll) 0 seg).lastDu
+            = (insertSliced mask fixed pLeft (segStart ll) 0 seg).lastDu := rfl
         rw [hn]
-        by_cases hr : (insertSliced mask fixed pLeft 0 0 seg).rest ≠ []
+        by_cases hr : (insertSliced mask fixed pLeft (segStart ll) 0 seg).rest ≠ []
         · rw [if_pos hr, if_pos hr]; rfl
         · rw [if_neg hr, if_neg hr]
           cases rest with
@@ -41,7 +41,7 @@ theorem genLoopR_null (mask : Nat) (fixed : Bool) :
             simp only []
             by_cases hm : mask &&& SL_VBI625 = 0
             · rw [if_pos hm, if_pos hm, ih _ _ _ _ _ hst]
-              cases genLoop mask fixed fuel (insertSliced mask fixed pLeft 0 0 seg).pLeft l rest' with
+              cases genLoop mask fixed fuel (insertSliced mask fixed pLeft (segStart ll) 0 seg).pLeft l rest' with
               | error e => obtain ⟨e1, e2⟩ := e; rfl
               | ok y => obtain ⟨o, du, left⟩ := y; rfl
             · rw [if_neg hm, if_neg hm]
